@@ -34,7 +34,7 @@ ASSUMPTIONS = ["values compared to 1e-9 relative; cells within 1e-9 of a discont
                "partition) are counted unstable and not judged", "models whose reference evaluation hits an error / degenerate statistics are "
                "only required to fail or succeed alike in every order"]
 TABLES = [
-    {"F": [1.5, None, 0.25, 5.0], "I": [2, 0, -1, 5], "G": [0.5, 2.0, -2.0, 1.0]},
+    {"F": [1.5, None, 0.25, 5.0], "I": [2, 0, -1, 5], "G": [0.5, 2.0, -2.0, None]},
     {"F": [None, 3.0, None, -1.0], "I": [1, 1, 2, 2], "G": [0.25, 0.25, 4.0, -0.5]},
     {"F": [0.0, 1.0, 2.0, 3.0], "I": [5, -2, 0, 1], "G": [-1.5, 0.0, 0.0, 2.0]},
 ]
@@ -52,7 +52,7 @@ def _base_cmds():
     b = lambda s: ("bare", s)
     return [("F", "EEMSRead", [("InFileName", q("in.csv")), ("InFieldName", b("F")), ("MissingVal", ("int", "-9999"))]),
             ("I", "EEMSRead", [("InFileName", q("in.csv")), ("InFieldName", b("I")), ("DataType", b("Integer"))]),
-            ("G", "EEMSRead", [("InFileName", q("in.csv")), ("InFieldName", b("G"))])]
+            ("G", "EEMSRead", [("InFileName", q("in.csv")), ("InFieldName", b("G")), ("MissingVal", ("int", "-9999"))])]
 
 
 def _pyval(v):
@@ -106,7 +106,7 @@ def _cmd_ast(name, cmd, params, ins):
 def _ref_eval(cmds, table):
     """reference evaluation: {name: ("ok", cells, approx) | ("err"/"degenerate"/"unspec", ...)}; stops propagating after a failure"""
     env = {"F": ("ok", [None if v is None else REF.fr(v) for v in table["F"]], False),
-           "I": ("ok", [F(v) for v in table["I"]], False), "G": ("ok", [REF.fr(v) for v in table["G"]], False)}
+           "I": ("ok", [F(v) for v in table["I"]], False), "G": ("ok", [None if v is None else REF.fr(v) for v in table["G"]], False)}
     unstable = set()
     for name, cmd, params, ins in cmds:
         if any(env[i][0] != "ok" for i in ins):
@@ -170,13 +170,30 @@ def cases(tier):
                     continue
                 for ti in (range(len(TABLES)) if tier == "thorough" else (0,)):
                     yield ("k2", cmd, pi, list(ins), ti, tier)
+    n = len(_fuzzy_diamonds())
+    for lo in range(0, n, 8):
+        yield ("diamond", lo, min(n, lo + 8), 0)
+
+
+def _fuzzy_diamonds():
+    """two fuzzy intermediates with DIFFERENT missing cells feeding a fuzzy n-ary operator, plus another consumer of one of them"""
+    fz_nary = [c for c in SIG.DATA_COMMANDS if SIG.input_fuzz(c) == "fz" and D.arity(c) == "n"]
+    fz_unary = [c for c in SIG.DATA_COMMANDS if SIG.input_fuzz(c) == "fz" and D.arity(c) == "1"] + ["FuzzyOr", "FuzzyUnion", "Copy"]
+    out = []
+    for op in fz_nary:
+        for pi in range(len(D.presets_small(op, 2))):
+            for order in (("R1", "R2"), ("R2", "R1")):
+                for c4 in fz_unary:
+                    for target in ("R1", "R2"):
+                        out.append((op, pi, order, c4, target))
+    return out
 
 
 def _write_table(work, table):
     with open(os.path.join(work, "in.csv"), "w") as f:
         f.write("F,I,G\n")
         for a, b, c in zip(table["F"], table["I"], table["G"]):
-            f.write("%s,%d,%s\n" % ("-9999" if a is None else repr(a), b, repr(c)))
+            f.write("%s,%d,%s\n" % ("-9999" if a is None else repr(a), b, "-9999" if c is None else repr(c)))
 
 
 def _run_text(text, work):
@@ -203,6 +220,8 @@ def _sig(a):
 
 def _orders(n, all_perms):
     idx = list(range(n))
+    if all_perms == "tail":
+        return [tuple(idx[:-3]) + t for t in itertools.permutations(idx[-3:])] + [tuple(reversed(idx))]
     if all_perms:
         return list(itertools.permutations(idx))
     outs = [tuple(idx), tuple(reversed(idx)), tuple(idx[2:] + idx[:2]), tuple(idx[-1:] + idx[:-1])]
@@ -297,6 +316,20 @@ def run(case):
                 cmds = [("R1", cmd, params, ins)]
                 evals += _check_model(cmds, table, work, True, viols, outcomes, counters, {"table": ti})
                 sample = {"model": "R1=%s%r %r" % (cmd, ins, params), "table": ti, "orders": "all 24 permutations + metadata"}
+                if len(viols) > 40:
+                    del viols[40:]
+        elif case[0] == "diamond":
+            _, lo, hi, ti = case
+            table = TABLES[ti]
+            _write_table(work, table)
+            for op, pi, order, c4, target in _fuzzy_diamonds()[lo:hi]:
+                p4 = D.presets_small(c4, 1)[0] if c4 in SIG.COMMANDS else {}
+                cmds = [("R1", "CvtToFuzzy", {"TrueThreshold": 5, "FalseThreshold": 0}, ("F",)),
+                        ("R2", "CvtToFuzzy", {"TrueThreshold": 2, "FalseThreshold": -2}, ("G",)),
+                        ("R3", op, D.presets_small(op, 2)[pi], order),
+                        ("R4", c4, p4, (target,))]
+                evals += _check_model(cmds, table, work, "tail", viols, outcomes, counters, {"table": ti})
+                sample = {"model": "R1=CvtToFuzzy(F); R2=CvtToFuzzy(G); R3=%s%r; R4=%s(%s)" % (op, order, c4, target), "orders": "all orders of the last three lines + reversed"}
                 if len(viols) > 40:
                     del viols[40:]
         else:
